@@ -17,7 +17,7 @@
         ints) - also on a graph without vertices, where the auxiliary route raises ValueError. *)
 From Coq Require Import ZArith List Bool Arith Lia.
 From Cspuz Require Import Lib.PyErr Core.Expr Core.Program Core.Build Graph.GraphModel Graph.ReachProofs
-     Graph.Division Graph.DivisionEval Graph.DivisionProofs Graph.DivisionMain
+     Graph.Division Graph.DivisionEval Graph.DivisionProofs Graph.DivisionMain Graph.DivisionPrim
      Puzzle.PuzzleBase Puzzle.SatAbs Puzzle.ModelBase Puzzle.ModelLemmas Puzzle.CreekProofs Puzzle.HeyawakeLemmas
      Puzzle.DivisionCompose Puzzle.CompassProofs.
 Import ListNotations.
@@ -364,3 +364,48 @@ Section ComposePrim.
     Qed.
   End Keys.
 End ComposePrim.
+
+(* ------------------------------------------------------------------------ *)
+(* 3. the call succeeds: one label per vertex, roots None or in-range ints (no condition on the number of      *)
+(*    vertices: the auxiliary route raises ValueError on a graph without vertices, this one does not)           *)
+
+Lemma prim_roots_defined labels rs :
+  Forall (root_in_range (length labels)) rs -> forall k, exists cs, prim_roots labels k rs = Ok cs.
+Proof.
+  induction 1 as [|a rs Ha _ IH]; intros k; simpl; [eexists; reflexivity|].
+  destruct a as [|z|t]; [apply IH| |destruct Ha].
+  simpl in Ha. destruct (py_nth_in_range labels z Ha) as [d ->]. simpl.
+  destruct (IH (S k)) as [rest ->]. simpl. eexists; reflexivity.
+Qed.
+
+Lemma prim_regions_defined s g aeg : length (seq_data s) = nv g ->
+  forall ks st, exists st', prim_regions st s g aeg ks = Ok st'.
+Proof.
+  intros Hlen. induction ks as [|k r IH]; intros st; simpl; [eexists; reflexivity|].
+  unfold bool_array. rewrite DivisionEval.bool_vars_spec.
+  set (region := map (fun i => BVar (next_id st + i)) (seq 0 (nv g))).
+  destruct (mapM_ok_all (fun j => let* r0 := nth_res region j in
+                                  let* d := nth_res (seq_data s) j in
+                                  Ok (BNode IFF [r0; py_eq d (PyInt (Z.of_nat k))])) (fun _ _ => True) (seq 0 (nv g)))
+    as [links [Hlinks _]].
+  { intros j Hj. apply in_seq in Hj. unfold region.
+    rewrite (nth_res_map_seq (fun i => BVar (next_id st + i)) (nv g) j) by lia. simpl.
+    rewrite (nth_res_nth (seq_data s) j (PyInt 0)) by lia. simpl. eexists. split; [reflexivity|exact I]. }
+  unfold region_links. rewrite Hlinks. simpl.
+  unfold avc_primitive_node. unfold region at 1. rewrite map_length, seq_length, Nat.eqb_refl. simpl.
+  destruct aeg; [apply IH|].
+  destruct (count_true_map division_gsem {| eb := fun _ => false; ei := fun _ => 0%Z |}
+              (fun v => BVar (next_id st + v)) (fun _ => false) (seq 0 (nv g))) as [ct [Hct _]].
+  { intros v _. split; reflexivity. }
+  fold region in Hct. rewrite Hct. simpl. apply IH.
+Qed.
+
+Theorem post_division_prim_defined st s R g rs aeg :
+  length (seq_data s) = nv g -> Forall (root_in_range (nv g)) rs ->
+  exists st', post_division st s R g (Some rs) aeg true = Ok st'.
+Proof.
+  intros Hlen Hrs. unfold post_division.
+  destruct (prim_regions_defined s g aeg Hlen (seq 0 R) st) as [st1 ->]. simpl.
+  rewrite <- Hlen in Hrs. destruct (prim_roots_defined (seq_data s) rs Hrs 0) as [cs ->]. simpl.
+  eexists; reflexivity.
+Qed.
